@@ -31,7 +31,7 @@ CFG = {'lean_modules': ['ObiVerif.Props.C12'],
                'selected pair yields is proved for built reads with fixed-length tags only (delimited tags use windows of different widths on the two sides — '
                'exercised for the safety clause only, as the property says); for arbitrary chimeras it is the harness oracle. The edit-distance specification is '
                'stated on reversed strings (prefix recurrence); its invariance under reversal is not proved. Sheet parsing (mimetype sniffing, encoding/csv, '
-               'ParseOBIFeatures) is exercised through the real reader and compared with the declared sheet, not modelled. Three defects repaired in /repo '
+               'ParseOBIFeatures) is exercised through the real reader and compared with the declared sheet, not modelled. Open finding (code left as it is, modelled as it is, theorem gating_breaks_symmetry): the hits of a complemented primer are collected only when the partner primer hits somewhere, so in reads with lone priming sites a hit lying between a forward hit and its complementary hit can be invisible to the state machine (pseudo-amplicon, and a different answer on the other strand). Three defects repaired in /repo '
                '(tag-length error dropped, map-order dependence, primer-unicity error dropped): the model is of the repaired behaviour.',
  'trusted_base': LEAN_TB + ['the primer hits (AllMatches of the four compiled patterns of each marker) are data of the model: the matcher is property C10',
                             'pkg/obingslibrary/verif_hooks.go (read-only accessors to the compiled patterns, the sample table and the two private scanners)',
